@@ -41,6 +41,16 @@ func genCfg(rng *hx.Rng, prop string, meta *hx.Meta) cfg {
 			c.Closers = append(c.Closers, 7)
 		}
 		c.Quiet = rng.Chance(30)
+		if rng.Chance(20) {
+			c.QCap = 0 // synchronous channel: the closers overlap inside transport.Close
+		}
+	case "C07":
+		// synchronous channel whose transport fails the k-th write: the lock must be released, later calls go on
+		c.QCap = 0
+		c.FailW = 1 + rng.Intn(4)
+		if rng.Chance(30) {
+			c.Closers = []int{5}
+		}
 	case "C02":
 	case "C06":
 		c.Closers = []int{5}
@@ -268,7 +278,7 @@ func explore(args hx.Args, meta *hx.Meta) {
 		fmt.Println("not reproduced: property holds on this schedule")
 		return
 	}
-	var cases []string
+	var cases, ycases []string
 	nontrivial := func(c cfg, o *obs) bool {
 		for i, st := range o.Trace {
 			switch prop {
@@ -311,6 +321,12 @@ func explore(args hx.Args, meta *hx.Meta) {
 			cc := c
 			cc.Picks = o.Picks
 			meta.CaseIndex[fmt.Sprint(len(cases)-1)] = map[string]interface{}{"cfg": cc}
+		} else if c.QCap == 0 && len(ycases) < hx.Pick3(args.Tier, 400, 4000, 0) {
+			id := len(ycases)
+			ycases = append(ycases, c.coqSync(id, o))
+			cc := c
+			cc.Picks = o.Picks
+			meta.CaseIndex["RY:"+fmt.Sprint(id)] = map[string]interface{}{"cfg": cc}
 		}
 		if nontrivial(c, o) {
 			var sb strings.Builder
@@ -379,11 +395,13 @@ func explore(args hx.Args, meta *hx.Meta) {
 	}
 	if args.Out != "" && args.Out != os.DevNull {
 		var sb strings.Builder
-		sb.WriteString("From Coq Require Import List.\nFrom GN Require Import Model.Chan Model.ChanCheck.\nImport ListNotations.\n")
+		sb.WriteString("From Coq Require Import List.\nFrom GN Require Import Model.Chan Model.ChanCheck Model.SyncChan Model.SyncCheck.\nImport ListNotations.\n")
 		sb.WriteString("Definition cases : list ccase := [\n" + strings.Join(cases, ";\n") + "].\n")
 		sb.WriteString("Definition R := Eval vm_compute in check_ccases cases.\nPrint R.\n")
+		sb.WriteString("Definition ycases : list ycase := [\n" + strings.Join(ycases, ";\n") + "].\n")
+		sb.WriteString("Definition RY := Eval vm_compute in check_ycases ycases.\nPrint RY.\n")
 		os.WriteFile(args.Out, []byte(sb.String()), 0o644)
 	}
-	meta.Cases = len(cases)
+	meta.Cases = len(cases) + len(ycases)
 	meta.Write(args.Meta)
 }
